@@ -33,6 +33,7 @@ class Obj:
     """a pooled connection; `_last_used` is a property so that every idle test of the pool (its only reader) is recorded"""
     answers = None        # list shared with the run: 'f' fresh / 'e' expired / 'c' creation failed
     clock = None
+    on_stamp = None       # (timed traces, C09) called with (obj, value) at every `obj._last_used = value` of the pool
 
     def __init__(self, i):
         self.i = i
@@ -48,18 +49,24 @@ class Obj:
 
     @_last_used.setter
     def _last_used(self, v):
+        if Obj.on_stamp is not None:
+            Obj.on_stamp(self, v)
         self._lu = v
 
 
-def run_schedule(mod, max_size, programs, plan, opcodes=False, idle=None, fail_create=()):
+def run_schedule(mod, max_size, programs, plan, opcodes=False, idle=None, fail_create=(), timed=False):
     """run thread programs over the real pool under a schedule plan; returns observations.
-    idle: the pool has an idle timeout (5) and the Op `tick` advances the clock by 10; fail_create: indices of the creator calls that raise"""
+    idle: the pool has an idle timeout (5) and the Op `tick` advances the clock by 10; fail_create: indices of the creator calls that raise;
+    timed (with idle; C09, `pool.validate.timed`): the trace also records every advance of the clock (`tick d`), every call of the pool's
+    clock (`clock v`) and every write of `_last_used` (`stamp o v`), in execution order; these records are no yield points, so the
+    schedule numbering is the same with and without them (C08 never sets it: its traces are unchanged)"""
     sched = Sched(plan, opcodes=opcodes)
     sched.in_get = {}
     created = []
     attempts = [0]
     sched.answers = []
-    Obj.answers, Obj.clock = None, None
+    Obj.answers, Obj.clock, Obj.on_stamp = None, None, None
+    timed = bool(timed and idle is not None)
 
     def creator():
         k = attempts[0]
@@ -87,8 +94,14 @@ def run_schedule(mod, max_size, programs, plan, opcodes=False, idle=None, fail_c
     pool._used_objs, pool._free_objs = used, free
     clock = {"t": 0.0}
     if idle is not None:
-        pool._idle_clock = lambda: clock["t"]
+        def idle_clock():
+            if timed:
+                sched.trace.append((sched.tid(), f"clock {int(clock['t'])}"))
+            return clock["t"]
+        pool._idle_clock = idle_clock
         Obj.answers, Obj.clock = sched.answers, clock
+        if timed:
+            Obj.on_stamp = lambda o, v: sched.trace.append((sched.tid(), f"stamp {o.i} {int(v)}"))
         free_append = free.append
 
         def append_stamped(o):
@@ -118,6 +131,8 @@ def run_schedule(mod, max_size, programs, plan, opcodes=False, idle=None, fail_c
             for op in prog:
                 if op == "tick":
                     clock["t"] += 10
+                    if timed:
+                        sched.trace.append((tid, "tick 10"))
                     continue
                 if op == "clear":
                     pool.clear()
@@ -134,6 +149,8 @@ def run_schedule(mod, max_size, programs, plan, opcodes=False, idle=None, fail_c
                             o.reopened = True
                         if op == "useLong":
                             clock["t"] += 10          # a call that takes longer than the idle timeout
+                            if timed:
+                                sched.trace.append((tid, "tick 10"))
                         check_invariants("while held")
                         if op.startswith("quit"):
                             try:
@@ -160,6 +177,7 @@ def run_schedule(mod, max_size, programs, plan, opcodes=False, idle=None, fail_c
                 check_invariants("after op")
         return f
     ok = sched.run([body(i, p) for i, p in enumerate(programs)], "POOLSRC")
+    Obj.on_stamp = None
     u = list(collections.deque.__iter__(used))
     f = list(collections.deque.__iter__(free))
     if not ok or sched.deadlock:
